@@ -1,0 +1,357 @@
+//go:build verif
+// +build verif
+
+package zenodb
+
+import (
+	"context"
+	"sort"
+	"sync"
+	"time"
+
+	"github.com/getlantern/bytemap"
+	"github.com/getlantern/wal"
+	"github.com/getlantern/zenodb/common"
+	"github.com/getlantern/zenodb/core"
+	"github.com/getlantern/zenodb/encoding"
+)
+
+// This file is only compiled with the "verif" build tag. It backs the hook
+// calls sprinkled through the package with package-level function variables
+// that a verification harness can set, and exposes read-only accessors to
+// private state. Nothing here is reachable in a normal build.
+
+var (
+	// VerifPointHook, if set, is called synchronously at every instrumented
+	// step. The harness may block inside it.
+	VerifPointHook func(db *DB, table string, name string, offset wal.Offset)
+	// VerifTimerScale, if > 0, replaces the start-up timers in followLeaders by
+	// the given duration.
+	VerifTimerScale time.Duration
+	// VerifNapDuration, if > 0, replaces the 1 s idle sleep in
+	// enqueuePartitionRequests.
+	VerifNapDuration time.Duration
+	// VerifInterceptHook, if set and returning true, takes over an iteration
+	// request instead of handing it to the coalescer.
+	VerifInterceptHook func(it *VerifIteration) bool
+	// VerifInitClockHook, if set, is called right after the virtual clock has
+	// been created in NewDB.
+	VerifInitClockHook func(db *DB)
+
+	verifStates sync.Map // *DB -> *verifState
+)
+
+type verifCounters struct {
+	Read    int
+	Done    int
+	Submit  int
+	Applied int
+}
+
+type verifState struct {
+	mx       sync.Mutex
+	cond     *sync.Cond
+	counters map[string]*verifCounters
+	starts   map[string]wal.Offset
+	lastDone map[string]wal.Offset
+}
+
+func verifStateFor(db *DB) *verifState {
+	if s, ok := verifStates.Load(db); ok {
+		return s.(*verifState)
+	}
+	s := &verifState{counters: make(map[string]*verifCounters), starts: make(map[string]wal.Offset), lastDone: make(map[string]wal.Offset)}
+	s.cond = sync.NewCond(&s.mx)
+	actual, _ := verifStates.LoadOrStore(db, s)
+	return actual.(*verifState)
+}
+
+func (s *verifState) countersFor(table string) *verifCounters {
+	c := s.counters[table]
+	if c == nil {
+		c = &verifCounters{}
+		s.counters[table] = c
+	}
+	return c
+}
+
+func verifPoint(db *DB, table string, name string, offset wal.Offset) {
+	s := verifStateFor(db)
+	s.mx.Lock()
+	c := s.countersFor(table)
+	switch name {
+	case "wal-read":
+		c.Read++
+	case "entry-done":
+		c.Done++
+		s.lastDone[table] = append(wal.Offset(nil), offset...)
+	case "submit":
+		c.Submit++
+	case "applied":
+		c.Applied++
+	case "table-start":
+		s.starts[table] = append(wal.Offset(nil), offset...)
+	}
+	s.cond.Broadcast()
+	s.mx.Unlock()
+	if VerifPointHook != nil {
+		VerifPointHook(db, table, name, offset)
+	}
+}
+
+func verifTimer(timer *time.Timer, d time.Duration) {
+	if VerifTimerScale > 0 {
+		timer.Reset(VerifTimerScale)
+	}
+}
+
+func verifNap() bool {
+	if VerifNapDuration > 0 {
+		time.Sleep(VerifNapDuration)
+		return true
+	}
+	return false
+}
+
+func verifInitClock(db *DB) {
+	if VerifInitClockHook != nil {
+		VerifInitClockHook(db)
+	}
+}
+
+// VerifIteration is an opaque handle on a pending table iteration.
+type VerifIteration struct {
+	it *iteration
+}
+
+// Table returns the name of the table this iteration scans.
+func (vi *VerifIteration) Table() string { return vi.it.t.Name }
+
+// DB returns the database this iteration belongs to.
+func (vi *VerifIteration) DB() *DB { return vi.it.t.db }
+
+func verifIntercept(it *iteration) bool {
+	if VerifInterceptHook != nil {
+		return VerifInterceptHook(&VerifIteration{it})
+	}
+	return false
+}
+
+// VerifProcessIterations runs the real doProcessIterations on exactly the given
+// batch (all iterations must be for the same table of the same DB).
+func VerifProcessIterations(batch []*VerifIteration) {
+	its := make([]*iteration, 0, len(batch))
+	for _, vi := range batch {
+		its = append(its, vi.it)
+	}
+	its[0].t.db.doProcessIterations(its)
+}
+
+// VerifEnqueueIteration hands the iteration to the regular coalescer.
+func VerifEnqueueIteration(vi *VerifIteration) {
+	vi.it.t.db.requestedIterations <- vi.it
+}
+
+// VerifCounters returns a snapshot of the hook counters for the given table.
+func VerifCounters(db *DB, table string) (read, done, submit, applied int) {
+	s := verifStateFor(db)
+	s.mx.Lock()
+	defer s.mx.Unlock()
+	c := s.countersFor(table)
+	return c.Read, c.Done, c.Submit, c.Applied
+}
+
+// VerifWait blocks until cond (evaluated under the state lock, with access to
+// the per-table counters) is true or the timeout expires. It returns false on
+// timeout.
+func VerifWait(db *DB, timeout time.Duration, cond func(counters func(table string) (read, done, submit, applied int)) bool) bool {
+	s := verifStateFor(db)
+	deadline := time.Now().Add(timeout)
+	timer := time.AfterFunc(timeout, func() {
+		s.mx.Lock()
+		s.cond.Broadcast()
+		s.mx.Unlock()
+	})
+	defer timer.Stop()
+	get := func(table string) (int, int, int, int) {
+		c := s.countersFor(table)
+		return c.Read, c.Done, c.Submit, c.Applied
+	}
+	s.mx.Lock()
+	defer s.mx.Unlock()
+	for !cond(get) {
+		if time.Now().After(deadline) {
+			return false
+		}
+		s.cond.Wait()
+	}
+	return true
+}
+
+// VerifTableStart returns the WAL offset at which the given table started
+// reading when the DB was opened (nil if from the beginning), and whether the
+// table has started WAL processing at all.
+func VerifTableStart(db *DB, table string) (wal.Offset, bool) {
+	s := verifStateFor(db)
+	s.mx.Lock()
+	defer s.mx.Unlock()
+	o, ok := s.starts[table]
+	return o, ok
+}
+
+// VerifForget drops the hook state kept for a closed DB.
+func VerifForget(db *DB) {
+	verifStates.Delete(db)
+}
+
+// VerifAdvanceClock advances the DB's (virtual) clock.
+func VerifAdvanceClock(db *DB, t time.Time) {
+	db.clock.Advance(t)
+}
+
+// VerifNow returns the DB clock's current time.
+func VerifNow(db *DB) time.Time {
+	return db.clock.Now()
+}
+
+// VerifFlushTable force-flushes a single table.
+func VerifFlushTable(db *DB, table string) {
+	t := db.getTable(table)
+	if t != nil {
+		t.forceFlush()
+	}
+}
+
+// VerifTableNames lists the tables of the DB in creation order.
+func VerifTableNames(db *DB) []string {
+	db.tablesMutex.RLock()
+	defer db.tablesMutex.RUnlock()
+	names := make([]string, 0, len(db.orderedTables))
+	for _, t := range db.orderedTables {
+		names = append(names, t.Name)
+	}
+	return names
+}
+
+// VerifRow is one decoded stored row.
+type VerifRow struct {
+	Key  []byte
+	Cols [][]byte
+}
+
+// VerifTableDump is a decoded view of everything a table's row store keeps.
+type VerifTableDump struct {
+	Fields      []string
+	MemFields   []string
+	FileFields  string
+	FileName    string
+	FileRows    []VerifRow
+	MemRows     []VerifRow
+	MemOffsets  map[int][]byte
+	FileOffsets map[int][]byte
+	FlushCount  int
+	Resolution  time.Duration
+	Retention   time.Duration
+	Widths      []int
+}
+
+// VerifDump decodes the current file store and memstore of the given table.
+// The caller must make sure the table is quiescent.
+func VerifDump(db *DB, table string) (*VerifTableDump, error) {
+	t := db.getTable(table)
+	if t == nil || t.rowStore == nil {
+		return nil, nil
+	}
+	rs := t.rowStore
+	rs.mx.RLock()
+	fs := rs.fileStore
+	ms := rs.memStore
+	d := &VerifTableDump{
+		FileName:    fs.filename,
+		FlushCount:  rs.flushCount,
+		Resolution:  t.Resolution,
+		Retention:   t.RetentionPeriod,
+		MemOffsets:  make(map[int][]byte),
+		FileOffsets: make(map[int][]byte),
+	}
+	for _, f := range rs.fields {
+		d.Fields = append(d.Fields, f.String())
+		d.Widths = append(d.Widths, f.Expr.EncodedWidth())
+	}
+	if ms != nil {
+		for _, f := range ms.fields {
+			d.MemFields = append(d.MemFields, f.String())
+		}
+		for source, offset := range ms.offsetsBySource {
+			d.MemOffsets[source] = append([]byte(nil), offset...)
+		}
+		ms.tree.Walk(0, func(key []byte, data []encoding.Sequence) (bool, bool, error) {
+			row := VerifRow{Key: append([]byte(nil), key...)}
+			for _, seq := range data {
+				row.Cols = append(row.Cols, append([]byte(nil), seq...))
+			}
+			d.MemRows = append(d.MemRows, row)
+			return true, true, nil
+		})
+	}
+	fields := rs.fields
+	rs.mx.RUnlock()
+
+	offsets, err := fs.iterate(fields, nil, false, false, func(key bytemap.ByteMap, columns []encoding.Sequence, raw []byte) (bool, error) {
+		row := VerifRow{Key: append([]byte(nil), key...)}
+		for _, seq := range columns {
+			row.Cols = append(row.Cols, append([]byte(nil), seq...))
+		}
+		d.FileRows = append(d.FileRows, row)
+		return true, nil
+	})
+	for source, offset := range offsets {
+		d.FileOffsets[source] = append([]byte(nil), offset...)
+	}
+	sort.Slice(d.MemRows, func(i, j int) bool { return string(d.MemRows[i].Key) < string(d.MemRows[j].Key) })
+	sort.Slice(d.FileRows, func(i, j int) bool { return string(d.FileRows[i].Key) < string(d.FileRows[j].Key) })
+	return d, err
+}
+
+// VerifTableFields returns the current field list of the table.
+func VerifTableFields(db *DB, table string) core.Fields {
+	t := db.getTable(table)
+	if t == nil {
+		return nil
+	}
+	return t.getFields()
+}
+
+// VerifRowStoreFields returns the field strings the row store currently uses
+// (these trail the table's fields until the row store has taken an update).
+func VerifRowStoreFields(db *DB, table string) []string {
+	t := db.getTable(table)
+	if t == nil || t.rowStore == nil {
+		return nil
+	}
+	t.rowStore.mx.RLock()
+	defer t.rowStore.mx.RUnlock()
+	var out []string
+	if t.rowStore.memStore != nil {
+		for _, f := range t.rowStore.memStore.fields {
+			out = append(out, f.String())
+		}
+	}
+	return out
+}
+
+// VerifIterateTable runs a raw row-store iteration (bypassing the coalescer).
+func VerifIterateTable(db *DB, table string, includeMemStore bool, onValue func(key bytemap.ByteMap, vals []encoding.Sequence) (bool, error)) (common.OffsetsBySource, error) {
+	t := db.getTable(table)
+	return t.rowStore.iterate(context.Background(), t.getFields(), includeMemStore, onValue)
+}
+
+// VerifTickerIntervals, if it has an entry for a named ticker, replaces that
+// ticker's interval.
+var VerifTickerIntervals = map[string]time.Duration{}
+
+func verifTicker(ticker *time.Ticker, name string) {
+	if d := VerifTickerIntervals[name]; d > 0 {
+		ticker.Reset(d)
+	}
+}
